@@ -47,6 +47,7 @@ package block
 //@   modifies it.currentPos, it.currentSeqNum, it.restartIdx, it.gi
 //@   ensures[A] old(it.gi) >= it.reader.n ==> !result2 && it.gi == old(it.gi) && it.currentPos == old(it.currentPos) && it.currentSeqNum == old(it.currentSeqNum)
 //@   ensures[A] old(it.gi) < it.reader.n ==> result2 && result0 != nil && fresh(result0) && bstr(result0) == it.reader.keys[old(it.gi)] && (result1 == nil) == it.reader.vnil[old(it.gi)] && bstr(result1) == it.reader.vals[old(it.gi)] && it.currentSeqNum == it.reader.seqs[old(it.gi)] && it.gi == old(it.gi) + 1 && it.currentPos == it.reader.pos[it.gi]
+//@   ensures[C11] result2 ==> result0 != nil && fresh(result0)
 //@   ghost exit: it.gi = ite(it.gi < it.reader.n, it.gi + 1, it.gi)
 // Size in bytes of the full-key entry that starts at byte p: keylen(2) key [seq(8) if at least 12 bytes follow the key]
 // vallen(4) value (a deletion marker 0xFFFFFFFF has no value bytes).
